@@ -248,6 +248,8 @@ def main(argv):
     binname = spec["bin"]
     seed = env_int("VERIF_SEED", 1)
     scale = float(os.environ.get("VERIF_SCALE", "1"))
+    if args.tier == "quick":
+        scale *= float(spec.get("quick_scale", 1.0))
     paths = Paths(pid)
     t0 = time.time()
 
@@ -316,7 +318,7 @@ def main(argv):
                 inconclusive.append("flavour %s: build failed" % fl)
                 continue
             fdir = os.path.join(paths.run, "fl-" + fl)
-            fs, fproblems = run_shards(fbindir, binname, "quick", seed, nshards, fdir, scale * spec.get("flavour_scale", 1.0), timeout,
+            fs, fproblems = run_shards(fbindir, binname, "quick", seed, nshards, fdir, float(os.environ.get("VERIF_SCALE", "1")) * spec.get("flavour_scale", 1.0), timeout,
                                        extra_args=spec.get("flavour_args", {}).get(fl, []), extra_env=sanitizer_env(fl, fdir))
             fm = merge(fs)
             flavour_notes[fl] = {"evaluations": fm["evaluations"], "violations_per_sig": fm["per_sig"], "problems": fproblems}
